@@ -292,10 +292,12 @@ func (o *Options) AppendTime(buf []byte, t time.Time, sen bool) []byte {
 		// in two parts.
 		nano := t.UnixNano()
 		secs := nano / int64(time.Second)
-		if 0 < nano {
+		if 0 <= nano {
 			buf = append(buf, fmt.Sprintf("%d.%09d", secs, nano-(secs*int64(time.Second)))...)
 		} else {
-			buf = append(buf, fmt.Sprintf("%d.%09d", secs, -(nano-(secs*int64(time.Second))))...)
+			// The sign is written separately since the integer part of
+			// -0.5 is zero.
+			buf = append(buf, fmt.Sprintf("-%d.%09d", -secs, -(nano-(secs*int64(time.Second))))...)
 		}
 	default:
 		buf = append(buf, '"')
